@@ -1395,3 +1395,75 @@ TRUSTED = [
     'HTTPMethodNotAllowed / HTTPRouteNotFound / HTTPBadRequest raised with concrete arguments are constructed natively by the real class (Allow header read from the real exception)',
     'replay of route_wiring and meta_guard uses the real App, router and falcon.testing helpers',
 ]
+
+
+# ---------------------------------------------------------------------------
+# concrete registration histories (added after an independently seeded change went *unreached*: it iterated over
+# the sink table, which the one-step contract above models as a sequence of symbolic length).  Here the tables
+# are real python lists, so any code -- loops included -- runs; every history of up to 3 registrations over two
+# overlapping prefixes and a static route is enumerated: "the most recently added matching sink ... wins" means the
+# table lists the registrations newest first, each one present, re-registrations of a prefix included.
+
+
+def _history_harness(v):
+    import re
+
+    asgi = bool(v.choose(2, 'asgi-app?'))
+    target = AAPP if asgi else APP
+    sbs = bool(v.choose(2, 'sink_before_static_route'))
+    app = v.obj(target, _sinks=[], _static_routes=[], _sink_and_static_routes=(), _sink_before_static_route=sbs)
+    if v.concrete:
+        return
+    prefixes = ['/api', r'/api/v2/(?P<item>\w+)']
+    ops = []
+    n = 1 + v.choose(3, 'history-length')
+    for i in range(n):
+        ops.append(v.choose(3, 'op%d' % i))  # 0: sink under prefix 0, 1: sink under prefix 1, 2: a static route
+
+    class _Sink:
+        def __init__(self, tag):
+            self.tag = tag
+
+    @stubclass
+    class _Static:
+        def __init__(self, tag):
+            self.tag = tag
+
+    sinks_newest_first, statics_newest_first = [], []
+    for i, op in enumerate(ops):
+        if op < 2:
+            s = _Sink('sink%d' % i)
+            _reg_models(v, asgi)
+            out = v.call(app, s, prefixes[op], target=target + '.add_sink')
+            v.check('registration-accepted', out.exc is None, step=i)
+            sinks_newest_first.insert(0, (prefixes[op], s))
+        else:
+            sr = _Static('static%d' % i)
+            tbl = v.get(app, '_static_routes')
+            tbl.insert(0, (sr, sr, False))
+            statics_newest_first.insert(0, sr)
+            v.call(app, target=APP + '._update_sink_and_static_routes')
+    got_s = [(getattr(e[0], 'pattern', e[0]), e[1]) for e in v.get(app, '_sinks')]
+    v.check('sink-table-lists-every-registration-newest-first', len(got_s) == len(sinks_newest_first)
+            and all(g[0] == w[0] and g[1] is w[1] for g, w in zip(got_s, sinks_newest_first)), ops=ops)
+    combined = list(v.get(app, '_sink_and_static_routes'))
+    want = ([w[1] for w in sinks_newest_first] + statics_newest_first) if sbs else (statics_newest_first + [w[1] for w in sinks_newest_first])
+    v.check('combined-table-follows-the-configured-order-newest-first', [e[1] for e in combined] == want, ops=ops)
+    v.cover('history-checked')
+
+
+def _reg_models(v, asgi):
+    import falcon.app as fa
+
+    v.registry.add_model(fa.iscoroutinefunction, lambda I, fn: asgi)
+    try:
+        import falcon.asgi.app as faa
+
+        v.registry.add_model(faa.iscoroutinefunction, lambda I, fn: asgi)
+    except Exception:
+        pass
+
+
+for _a in (0, 1):
+    harness(PROP, (AAPP if _a else APP) + '.add_sink', name='registration_histories[asgi=%d]' % _a, fix={'asgi-app?': _a},
+            inline=[APP + '.add_sink', APP + '._update_sink_and_static_routes', AAPP + '.add_sink'])(_history_harness)
